@@ -13,7 +13,9 @@ Decided:
          to the object it names;
   R02.d  identity: on dispatch -> execute -> inject the values are only moved between dicts, never passed
          through a call (copy/str/...);
-  R02.e  phase isolation: endpoint-phase provides never enter the render-phase availability (R01.d).
+  R02.e  phase isolation: endpoint-phase provides never enter the render-phase availability (R01.d); the parameters of a generated
+         ``next(...)`` are the provides of its middleware in the order declared -- the positional interface through which a
+         middleware hands values on: make_chain / compile_chain pass the tuples on unsorted (order-preserving copies only).
 Declined: values third-party middlewares hand to next(); URL conversion values (C05).
 """
 from . import chain
